@@ -64,7 +64,7 @@ func importCodec(c *Ctx, r *Report, rule string, decoded, encoded []string, shor
 				if in(decoded, t) || in(encoded, t) {
 					file(prop, o)
 				}
-			case "C22-R2":
+			case "C22-R2", "C22-R3":
 				if len(decoded) > 0 {
 					file(prop, o)
 				}
